@@ -431,7 +431,7 @@ def correspond_cells(ctx):
                  'type %s value %s -> %r' % (t, pv.to_expr(v)[:160], real_set(t, v)))
   defer(ctx, _report, 'set', IMPORTS,
                       'fun c => match c with (v, tbl, T, r) => res_eqb value_eqb (gen_col_set (oracles_of tbl) T v) r end',
-                      set_cases, shard=60 if ctx.tier == 'quick' else 120, timeout=TIMEOUT(ctx), case_type='(value * tables * ctype * result value)%type')
+                      set_cases, shard=170, timeout=TIMEOUT(ctx), case_type='(value * tables * ctype * result value)%type')
   def _report(bad):
     for k in bad[:6]:
       t, v = rl_meta[k]
@@ -442,7 +442,7 @@ def correspond_cells(ctx):
   defer(ctx, _report, 'reload', IMPORTS,
                       'fun c => match c with (v, tbl, T, mp, err, r) => res_eqb cell_eqb '
                       '(code_reload (oracles_of tbl) (marshal_of mp) (unmarshal_of mp) T %d (v, err)) r end' % FUEL,
-                      rl_cases, shard=60 if ctx.tier == 'quick' else 120, timeout=TIMEOUT(ctx),
+                      rl_cases, shard=170, timeout=TIMEOUT(ctx),
                       case_type='(value * tables * ctype * list (value * list Z) * option errdesc * result cell)%type')
   ctx.extra['cases_in_coq'] = len(set_cases) + len(rl_cases)
 
@@ -556,7 +556,7 @@ def correspond_compare(ctx):
       ctx.broken('correspondence:model strict_equal differs from objtypes.strict_equal',
                  '%s vs %s -> %r' % (pv.to_expr(a)[:100], pv.to_expr(b)[:100], objtypes.strict_equal(a, b)))
   defer(ctx, _report, 'strict', IMPORTS, 'fun c => match c with (a, b, tbl, r) => res_eqb Bool.eqb (gen_strict_equal (oracles_of tbl) a b) (Ok r) end',
-                      se_cases, shard=80 if ctx.tier == 'quick' else 150, timeout=TIMEOUT(ctx), case_type=ctype)
+                      se_cases, shard=170, timeout=TIMEOUT(ctx), case_type=ctype)
   def _report(bad):
     for k in bad[:6]:
       a, b = ee_meta[k]
@@ -564,7 +564,7 @@ def correspond_compare(ctx):
                  '%s vs %s -> %r' % (pv.to_expr(a)[:100], pv.to_expr(b)[:100], objtypes.equal_encoding(a, b)))
   defer(ctx, _report, 'equalenc', IMPORTS,
                       'fun c => match c with (a, b, tbl, r) => res_eqb Bool.eqb (gen_equal_encoding (oracles_of tbl) (encode_f (oracles_of tbl) %d) a b) (Ok r) end' % FUEL,
-                      ee_cases, shard=80 if ctx.tier == 'quick' else 150, timeout=TIMEOUT(ctx), case_type=ctype)
+                      ee_cases, shard=170, timeout=TIMEOUT(ctx), case_type=ctype)
   ctx.extra['cases_in_coq'] = ctx.extra.get('cases_in_coq', 0) + len(se_cases) + len(ee_cases)
 
 
@@ -797,8 +797,12 @@ def formula_cell_stream(ctx):
 
 def classify_formula_cell(r, x, s, w):
   """why a recomputed formula cell differs from its own saved value"""
+  import datetime
+  import objtypes
   if not encodable_plain(x):
     return 'nan_inside_container'
+  if isinstance(s, datetime.datetime) and isinstance(w, objtypes.RaisedException) and w._name == 'OverflowError':
+    return 'datetime_end_of_calendar'
   if not isinstance(r, str) and isinstance(x, str) and not pv.same(s, x):
     return 'fallback_text_reparsed_by_set'
   return 'formula_cell_not_fixpoint'
@@ -852,7 +856,7 @@ def correspond_formula_cells(ctx):
                       'match col_set orc T x with Ok s => match reload orc (marshal_of mp) (unmarshal_of mp) T %d (s, None) with '
                       '| Ok (w, _) => Bool.eqb (match flush_cell orc %d (recompute_cell orc w x) with Some _ => true | None => false end) em '
                       '| Raise _ => false end | Raise _ => false end end' % (FUEL, FUEL),
-                      cases, shard=60 if ctx.tier == 'quick' else 120, timeout=TIMEOUT(ctx),
+                      cases, shard=170, timeout=TIMEOUT(ctx),
                       case_type='(value * tables * ctype * list (value * list Z) * bool)%type')
   ctx.extra['cases_in_coq'] = ctx.extra.get('cases_in_coq', 0) + len(cases)
 
